@@ -65,7 +65,23 @@ func leftovers(w *coresim.World, f facts, ctx string) (out []vrt.Violation) {
 		vrt.Quiesce("after-cleanup")
 		for _, t := range w.M.AliveTasks() {
 			if _, owned := w.EverOwned[t.ID]; !owned && (t.EnvID == f.envID || f.envID == "") && t.Kills == 0 {
-				fail("never-owned-task-out-of-reach-of-cleanup:"+t.Class, "task %s (%s) launched for %s never became owned, is alive at the master and the next CleanupTasks did not ask it to terminate (roster: %v)", t.ID, t.Class, f.envID, w.TaskOwners())
+				// a deployment is attempted several times: was this instance launched in the last attempt or in an earlier one?
+				attempt := "single-launch"
+				for _, o := range w.M.Tasks {
+					if o != t && o.Class == t.Class && o.EnvID == t.EnvID {
+						if o.LaunchOrder > t.LaunchOrder {
+							attempt = "launched-in-an-earlier-attempt"
+						} else if attempt == "single-launch" {
+							attempt = "launched-in-the-last-attempt"
+						}
+					}
+				}
+				// ... and did the core ever have it in its roster (then the cleanup dropped it without a KILL), or never?
+				how := "never-in-roster"
+				if w.EverInRoster[t.ID] {
+					how = "dropped-from-roster"
+				}
+				fail("never-owned-task-out-of-reach-of-cleanup:"+how+":"+attempt+":"+t.Class, "task %s (%s) launched for %s never became owned, is alive at the master and the next CleanupTasks did not ask it to terminate (roster: %v)", t.ID, t.Class, f.envID, w.TaskOwners())
 			}
 		}
 	}
@@ -76,7 +92,7 @@ func leftovers(w *coresim.World, f facts, ctx string) (out []vrt.Violation) {
 
 var states = []string{"CONFIGURED", "RUNNING", "DEPLOYED", "ERROR"}
 var flagSets = []struct {
-	name                     string
+	name                  string
 	force, allowRun, keep bool
 }{{"plain", false, false, false}, {"force", true, false, false}, {"allowInRunning", false, true, false}, {"keepTasks", false, false, true}, {"force+keep", true, false, true}}
 var killOutcomes = []coresim.Outcome{coresim.OK, coresim.Undeliverable, coresim.Silent}
@@ -219,6 +235,7 @@ func createCases() []createCase {
 		{"class-name-mismatch", "c06-mismatch", ok, nil},
 		{"detector-busy", "c06-2", ok, func(w *coresim.World) { w.Create("c06-2", nil) }},
 		{"unplaceable-critical", "c06-unplaceable", ok, nil},
+		{"critical-does-not-fit", "c06-toobig", ok, nil},
 		{"critical-never-running", "c06-2", on("c06a", "launch", coresim.NeverRunning), nil},
 		{"critical-launch-fails", "c06-2", on("c06a", "launch", coresim.LaunchFails), nil},
 		{"noncritical-launch-fails", "c06-2", on("c06b", "launch", coresim.LaunchFails), nil},
@@ -332,16 +349,16 @@ func snapshot(w *coresim.World, id string) string {
 
 // ---- scenario 3: DESTROY hooks ---------------------------------------------------------------
 
-func hooksScenario() *vrt.Scenario {
+func hooksScenario(name string, deadHooks bool, q, t vrt.Bounds) *vrt.Scenario {
 	var w *coresim.World
 	var f facts
 	var desc string
 	var ownedAtHook map[string][]string
 	var hookTriggered map[string]int
 	wfs := []string{"c06-hooks0", "c06-hooks1", "c06-hooks2", "c06-hooks3"}
-	var wf string
-	return &vrt.Scenario{Name: "destroy-hooks", Prop: "C06", Doc: "DESTROY / after_DESTROY hooks (calls and hook tasks) at several weights", Cfg: cfg,
-		Setup: coresim.ResetStore, Quick: vrt.Bounds{Dev: 1, Seconds: 100}, Thorough: vrt.Bounds{Dev: 2, Seconds: 500},
+	var wf, preHook string
+	return &vrt.Scenario{Name: name, Prop: "C06", Doc: "DESTROY / after_DESTROY hooks (calls and hook tasks) at several weights; dead-hooks variant: a hook task failed / all hook tasks were lost before the destroy", Cfg: cfg,
+		Setup: coresim.ResetStore, Quick: q, Thorough: t,
 		DeadlockClause: "destroy-hangs", PanicClause: "panic",
 		NonTrivial: func(*vrt.Exec) bool { return f.envID != "" },
 		Body: func() {
@@ -391,12 +408,33 @@ func hooksScenario() *vrt.Scenario {
 			if state == 1 {
 				w.Control(id, pb.ControlEnvironmentRequest_START_ACTIVITY)
 			}
+			// something happened to the DESTROY hook tasks before the destroy was requested
+			preHook = "none"
+			if deadHooks {
+				preHook = []string{"first-hook-task-failed", "all-hook-tasks-lost"}[vrt.ChooseFree(2, "hook-tasks-before-destroy")]
+			}
+			if preHook != "none" {
+				n := 0
+				for _, t := range m.AliveTasks() {
+					if strings.HasPrefix(t.Class, "c06hook") {
+						if preHook == "first-hook-task-failed" && n == 0 {
+							m.FailTask(t, mesos.TASK_FAILED)
+						} else if preHook == "all-hook-tasks-lost" {
+							m.FailTask(t, mesos.TASK_LOST)
+						}
+						n++
+					}
+				}
+				vrt.Quiesce("after-hook-fault")
+				vrt.Sleep(2 * time.Second)
+				vrt.Quiesce("after-hook-fault2")
+			}
 			f.rpcErr = w.Destroy(id, false, state == 1, false)
 			coresim.OnPluginCall = nil
 			vrt.Quiesce("after-destroy")
 			vrt.Sleep(3 * time.Second)
 			vrt.Quiesce("after-destroy2")
-			desc = fmt.Sprintf("workflow=%s state=%d err=%v calls=%v triggered=%v", wf, state, f.rpcErr, coresim.CallLog, hookTriggered)
+			desc = fmt.Sprintf("workflow=%s state=%d hook-tasks-before=%s err=%v calls=%v triggered=%v", wf, state, preHook, f.rpcErr, coresim.CallLog, hookTriggered)
 			vrt.Logf("%s", desc)
 		},
 		Check: func(x *vrt.Exec) (out []vrt.Violation) {
@@ -534,6 +572,8 @@ func main() {
 		{Name: "c06-2", Hosts: []string{"hostA"}, Tasks: two},
 		{Name: "c06-unplaceable", Hosts: []string{"hostA"}, Tasks: []coresim.TaskSpec{two[0], {Name: "tz", Class: "c06z", Mode: "direct", Critical: true, Host: "hostZ"}}},
 		{Name: "c06-noclass", Hosts: []string{"hostA"}, Tasks: []coresim.TaskSpec{two[0]}},
+		// the second critical task matches hostA but wants more cpus than any offer has: it stays undeployed (not undeployable)
+		{Name: "c06-toobig", Hosts: []string{"hostA"}, Tasks: []coresim.TaskSpec{two[0], {Name: "tbig", Class: "c06big", Mode: "direct", Critical: true, Host: "hostA", Cpu: 100}}},
 		{Name: "c06-mismatch", Hosts: []string{"hostA"}, Tasks: []coresim.TaskSpec{{Name: "tm", Class: "c06m", Mode: "direct", Critical: true, Host: "hostA"}}},
 		{Name: "c06-tmplerr", Hosts: []string{"hostA"}, Tasks: []coresim.TaskSpec{{Name: "te-{{ undefined_function_xyz() }}", Class: "c06a", Mode: "direct", Critical: true, Host: "hostA"}}},
 		{Name: "c06-hooks0", Hosts: []string{"hostA"}, Tasks: two, Calls: []string{callRole("pend", "pending", "before_START_ACTIVITY", "after_NEVERHAPPENS")}},
@@ -543,5 +583,6 @@ func main() {
 	}
 	coresim.GlobalSetup(specs...)
 	coresim.BreakFixture()
-	vrt.Main([]*vrt.Scenario{destroyScenario(), createScenario(), hooksScenario(), twiceScenario()})
+	vrt.Main([]*vrt.Scenario{destroyScenario(), createScenario(), hooksScenario("destroy-hooks", false, vrt.Bounds{Dev: 1, Seconds: 100}, vrt.Bounds{Dev: 2, Seconds: 500}),
+		hooksScenario("destroy-hooks-dead", true, vrt.Bounds{Dev: 0, Seconds: 100}, vrt.Bounds{Dev: 1, Seconds: 500}), twiceScenario()})
 }
